@@ -7,6 +7,9 @@ DEFAULT = dict(
     p_item_err=0.08, p_item_skip=0.05, p_flush_raise=0.1, p_prio=0.4, p_ctx_fault=0.0, p_nonasync=0.0,
     p_override=0.4, p_result=0.1, nvars=2, roots=(1, 1), p_lazy_err=0.4, p_keep=0.0, max_width=3, p_maxstack=0.0,
     p_again=0.0,
+    p_flush_ctx=0.0,  # flush bodies that run inside `with scoped_value.override(v):` and report get_active_task()
+    p_ret_fut=0.0,    # a task that returns a future it never yielded (`return other.asynq(...)`): the future object is its value
+    p_dup=0.0,        # one yield that lists the same stored (not yet started) handle twice, with fresh futures in between
     p_manual_ctx=0.0, # contexts entered and left by explicit __enter__/__exit__ calls, in non-nested order
     p_via_cancel=0.0, # a flush body that fails does so by cancelling its own batch and returning normally
     p_base_err=0.0,   # params.base_errors: every third fault id is a BaseException that is not an Exception
@@ -179,6 +182,23 @@ class Gen:
                     x1, x2 = self.fx(), self.fx()
                     out.append({"op": "yield", "x": x1, "s": s, "again": x2})
                     vals.extend([x1, x2])
+                if c["p_dup"] > 0 and self.r.random() < c["p_dup"]:
+                    h = self.fh()
+                    out.append({"op": "let", "h": h, "f": self.fexpr(depth, vals, hands)})
+                    hands.append(h)
+                    mid = [{"new": self.fexpr(depth, vals, hands)} for _ in range(self.r.choice([1, 2, 2, 3]))]
+                    last = {"old": h}
+                    q = self.r.random()
+                    if q < 0.25:
+                        last = {"list": [last]}
+                    elif q < 0.4:
+                        last = {"dict": [[0, last]]}
+                    leaves = [{"old": h}] + mid + [last]
+                    if self.r.random() < 0.3:
+                        leaves = mid[:1] + [{"old": h}] + mid[1:] + [last]
+                    xd = self.fx()
+                    out.append({"op": "yield", "x": xd, "s": {self.r.choice(["list", "tuple"]): leaves}})
+                    vals.append(xd)
             if manual and self.r.random() < 0.3:
                 m = manual.pop(0)       # the OLDEST one first: lifetimes overlap without nesting
                 out.append({"op": "exit", "v": m["v"], "c": m["c"]})
@@ -186,7 +206,16 @@ class Gen:
             out.append({"op": "exit", "v": m["v"], "c": m["c"]})
         if terminal:
             r = self.r.random()
-            if r < c["p_result"]:
+            if c["p_ret_fut"] > 0 and self.r.random() < c["p_ret_fut"]:
+                if hands and self.r.random() < 0.4:
+                    h = self.r.choice(hands)
+                else:
+                    h = self.fh()
+                    out.append({"op": "let", "h": h, "f": self.fexpr(depth, vals, hands)})
+                    hands.append(h)
+                self.ret_fut = True
+                out.append({"op": "return", "e": {"handle": h} if self.r.random() < 0.7 else {"tuple": [{"handle": h}, self.retexpr(vals)]}})
+            elif r < c["p_result"]:
                 out.append({"op": "result", "e": self.retexpr(vals)})
             else:
                 out.append({"op": "return", "e": self.retexpr(vals)})
@@ -208,6 +237,11 @@ class Gen:
                 ks["raise"] = [self.r.randrange(0, 4), 1000 + self.ferr()]
                 if c["p_via_cancel"] > 0 and self.r.random() < c["p_via_cancel"]:
                     ks["via_cancel"] = True
+            if c["p_flush_ctx"] > 0 and self.r.random() < c["p_flush_ctx"]:
+                if self.r.random() < 0.8:
+                    ks["override"] = [self.r.randrange(c["nvars"]), self.r.randrange(50, 60)]
+                if self.r.random() < 0.7:
+                    ks["probe"] = True
             if ks:
                 kinds[str(k)] = ks
         p = {"kinds": kinds}
@@ -228,7 +262,10 @@ class Gen:
         for _ in range(nroots):
             self.budget = self.c["budget"]
             roots.append(self.body(0, [], []))
-        return {"roots": roots, "params": self.params()}
+        p = self.params()
+        if getattr(self, "ret_fut", False):
+            p["model_blind"] = True
+        return {"roots": roots, "params": p}
 
 
 # ------------------------------------------------------------------ statistics over an AST
